@@ -39,16 +39,162 @@ structure EdfSetting (s : Sys) (Dl : ℕ → ℕ) (i D : ℕ) (tua : RB) (others
 
 theorem hepEDF_trans (s : Sys) (Dl : ℕ → ℕ) (a b c : ℕ) (h1 : hepEDF s Dl a b) (h2 : hepEDF s Dl b c) :
     hepEDF s Dl a c := by
-  sorry
+  unfold hepEDF at *
+  omega
 
 theorem hepEDF_refl (s : Sys) (Dl : ℕ → ℕ) (a : ℕ) : hepEDF s Dl a a := by
-  sorry
+  unfold hepEDF
+  omega
+
+namespace EdfSoundLemmas
+open RTA.PruneCoreLemmas RTA.PruneFPLemmas RTA.PruneEDFLemmas FpSoundLemmas
+
+/-! ### sums over job sets and over the list of other tasks -/
+
+theorem cost_le_workP (s : Sys) (p : ℕ → Prop) (j : ℕ) (hj : j < s.n) (hp : p j) :
+    s.cost j ≤ J.workP s p := by
+  have := workP_split s p j hj hp
+  omega
+
+theorem workP_exists_le (s : Sys) (P : ℕ → ℕ → Prop) (N : ℕ) :
+    J.workP s (fun k => ∃ m, m < N ∧ P m k) ≤ ∑ m ∈ range N, J.workP s (P m) := by
+  induction N with
+  | zero =>
+    have : J.workP s (fun k => ∃ m, m < 0 ∧ P m k) = 0 := by
+      unfold J.workP
+      apply sum_eq_zero
+      intro k _
+      rw [if_neg]
+      rintro ⟨m, hm, _⟩
+      omega
+    rw [this]
+    exact Nat.zero_le _
+  | succ N ih =>
+    rw [sum_range_succ]
+    have h1 : J.workP s (fun k => ∃ m, m < N + 1 ∧ P m k)
+        ≤ J.workP s (fun k => (∃ m, m < N ∧ P m k) ∨ P N k) := by
+      apply workP_mono
+      rintro k _ ⟨m, hm, hp⟩
+      by_cases h : m = N
+      · subst h; exact Or.inr hp
+      · exact Or.inl ⟨m, by omega, hp⟩
+    exact le_trans h1 (le_trans (workP_or_le s _ _) (Nat.add_le_add_right ih _))
+
+theorem sum_le_sumList {α : Type} [Inhabited α] (l : List α) (g : α → ℕ) (W : ℕ → ℕ)
+    (h : ∀ m, m < l.length → W m ≤ g (l.getD m default)) :
+    ∑ m ∈ range l.length, W m ≤ sumList (l.map g) := by
+  induction l generalizing W with
+  | nil => simp [sumList]
+  | cons x xs ih =>
+    rw [List.length_cons, sum_range_succ']
+    simp only [List.map_cons, sumList]
+    have h0 := h 0 (by simp)
+    have hs := ih (fun m => W (m + 1)) (fun m hm => by
+      have := h (m + 1) (by simp only [List.length_cons]; omega)
+      simpa using this)
+    simp only [List.getD_cons_zero] at h0
+    omega
+
+/-- the work of the jobs of the other tasks released in per-task windows `[t, t + dd o)` -/
+theorem workP_others_le {s : Sys} {Dl : ℕ → ℕ} {i D : ℕ} {tua : RB} {others : List EdfTask}
+    {ids : List ℕ} (hS : EdfSetting s Dl i D tua others ids) (t : ℕ) (dd : EdfTask → ℕ) :
+    J.workP s (fun k => ∃ m, m < ids.length ∧ (s.task k = ids.getD m 0 ∧ t ≤ s.arr k ∧
+        s.arr k < t + dd (others.getD m default)))
+      ≤ sumList (others.map fun o => o.rb.need (dd o)) := by
+  refine le_trans (workP_exists_le s _ _) ?_
+  rw [hS.ids_len]
+  refine sum_le_sumList others (fun o => o.rb.need (dd o)) _ ?_
+  intro m hm
+  have h := hS.w_other m (by rw [hS.ids_len]; exact hm) t (dd (others.getD m default))
+  rw [workOf_eq] at h
+  exact h
+
+theorem work_eq_workP (s : Sys) (a b : ℕ) :
+    work s a b = J.workP s (fun k => a ≤ s.arr k ∧ s.arr k < b) := by
+  unfold work J.workP
+  refine sum_congr rfl (fun k _ => ?_)
+  split_ifs <;> rfl
+
+end EdfSoundLemmas
+open EdfSoundLemmas FpSoundLemmas
 
 /-- the whole job set's workload in any window is bounded by the sum of all request bounds -/
 theorem edf_total_work (s : Sys) (Dl : ℕ → ℕ) (i D : ℕ) (tua : RB) (others : List EdfTask) (ids : List ℕ)
     (hS : EdfSetting s Dl i D tua others ids) (t d : ℕ) :
     work s t (t + d) ≤ sumNeed (others.map (·.rb)) d + tua.need d := by
-  sorry
+  rw [work_eq_workP]
+  have h1 : J.workP s (fun k => t ≤ s.arr k ∧ s.arr k < t + d)
+      ≤ J.workP s (fun k => (s.task k = i ∧ t ≤ s.arr k ∧ s.arr k < t + d) ∨
+          (∃ m, m < ids.length ∧ (s.task k = ids.getD m 0 ∧ t ≤ s.arr k ∧ s.arr k < t + d))) := by
+    apply workP_mono
+    rintro k hk ⟨ha, hb⟩
+    rcases hS.task_mem k hk with h | ⟨m, hm, h⟩
+    · exact Or.inl ⟨h, ha, hb⟩
+    · exact Or.inr ⟨m, hm, h, ha, hb⟩
+  have h2 := hS.w_tua t d
+  rw [workOf_eq] at h2
+  have h3 := workP_others_le hS t (fun _ => d)
+  have h4 : sumNeed (others.map (·.rb)) d = sumList (others.map fun o => o.rb.need d) := by
+    unfold sumNeed
+    rw [List.map_map]
+    rfl
+  rw [h4]
+  have := le_trans h1 (le_trans (workP_or_le s _ _) (Nat.add_le_add h2 h3))
+  omega
+
+namespace EdfSoundLemmas
+open RTA.PruneCoreLemmas RTA.PruneFPLemmas RTA.PruneEDFLemmas FpSoundLemmas
+
+theorem servedP_zero {s : Sys} {hep : ℕ → ℕ → Prop} (hl : JlfpLegal s hep) (p : ℕ → Prop) (t : ℕ)
+    (h : ∀ k, p k → t ≤ s.arr k) : J.servedP s p t = 0 := by
+  unfold J.servedP
+  apply sum_eq_zero
+  intro k _
+  split
+  · exact J.svc_zero_before hl k t (h k ‹_›)
+  · rfl
+
+/-- after a globally quiet time `g` there is another one within the next `L` slots whenever
+the work released in `[g, g + L)` is at most `L` -/
+theorem next_quiet {s : Sys} {hep : ℕ → ℕ → Prop} (hl : JlfpLegal s hep) (g L : ℕ) (hL : 0 < L)
+    (hq : RTA.Sched.Quiet s g) (hw : work s g (g + L) ≤ L) :
+    ∃ g', g < g' ∧ g' ≤ g + L ∧ RTA.Sched.Quiet s g' := by
+  by_contra hno
+  push Not at hno
+  have hbusy : ∀ u, g ≤ u → u < g + L → ∃ j', s.sched u = some j' ∧ j' < s.n ∧
+      (g ≤ s.arr j' ∧ s.arr j' < g + L) := by
+    intro u h1 h2
+    have hnq := hno (u + 1) (by omega) (by omega)
+    unfold RTA.Sched.Quiet at hnq
+    push Not at hnq
+    obtain ⟨k, hk, hka, hkn⟩ := hnq
+    have hkp : Pending s k u := by
+      refine ⟨by omega, ?_⟩
+      have := J.svc_le_cost hl k (u + 1)
+      have := J.svc_mono (s := s) k (show u ≤ u + 1 by omega)
+      omega
+    obtain ⟨j', hj'⟩ := hl.wc u ⟨k, hk, hkp⟩
+    have hv := hl.valid u j' hj'
+    refine ⟨j', hj', hv.1, ?_, ?_⟩
+    · by_contra hlt
+      have := J.done_mono hl j' h1 (hq j' hv.1 (by omega))
+      have := hv.2.2
+      omega
+    · have := hv.2.1
+      omega
+  have hb := J.servedP_busy (s := s) (fun k => g ≤ s.arr k ∧ s.arr k < g + L) g L hbusy
+  rw [servedP_zero hl _ g (fun k hk => hk.1)] at hb
+  have h1 := J.servedP_le_workP hl (fun k => g ≤ s.arr k ∧ s.arr k < g + L) (g + L)
+  rw [work_eq_workP] at hw
+  have heq : J.servedP s (fun k => g ≤ s.arr k ∧ s.arr k < g + L) (g + L)
+      = J.workP s (fun k => g ≤ s.arr k ∧ s.arr k < g + L) := by omega
+  apply hno (g + L) (by omega) (le_refl _)
+  intro k hk hka
+  by_cases hlt : s.arr k < g
+  · exact J.done_mono hl k (by omega) (hq k hk hlt)
+  · exact J.all_done_of_served_eq hl _ _ heq k hk ⟨by omega, hka⟩
+
+end EdfSoundLemmas
 
 /-- the offset of a job inside its (priority-level) busy window is smaller than the length
 `L` of the longest busy window of the whole task set -/
@@ -58,7 +204,209 @@ theorem edf_offset_lt_L (s : Sys) (Dl : ℕ → ℕ) (i D : ℕ) (tua : RB) (oth
     (j : ℕ) (hj : j < s.n) (t0 : ℕ) (hq : J.Quiet s (hepEDF s Dl) j t0)
     (ht0 : t0 ≤ s.arr j) (hmax : ∀ t, t0 < t → t ≤ s.arr j → ¬ J.Quiet s (hepEDF s Dl) j t) :
     s.arr j - t0 < L := by
-  sorry
+  have hl := hS.legal
+  have hq0 : RTA.Sched.Quiet s 0 := by intro k _ h; omega
+  have hgq : RTA.Sched.Quiet s (Nat.findGreatest (RTA.Sched.Quiet s) t0) :=
+    Nat.findGreatest_spec (P := RTA.Sched.Quiet s) (Nat.zero_le _) hq0
+  have hgle : Nat.findGreatest (RTA.Sched.Quiet s) t0 ≤ t0 := Nat.findGreatest_le _
+  have hgmax : ∀ t, Nat.findGreatest (RTA.Sched.Quiet s) t0 < t → t ≤ t0 → ¬ RTA.Sched.Quiet s t :=
+    fun t h1 h2 => Nat.findGreatest_is_greatest h1 h2
+  generalize Nat.findGreatest (RTA.Sched.Quiet s) t0 = g at hgq hgle hgmax
+  have hw : work s g (g + L) ≤ L := le_trans (edf_total_work s Dl i D tua others ids hS g L) hfix
+  obtain ⟨g', h1, h2, h3⟩ := next_quiet hl g L hL hgq hw
+  have hJ : J.Quiet s (hepEDF s Dl) j g' := fun k hk _ ha => h3 k hk ha
+  have h4 : t0 < g' := by
+    by_contra h
+    exact hgmax g' h1 (by omega) h3
+  have h5 : s.arr j < g' := by
+    by_contra h
+    exact hmax g' h4 (by omega) hJ
+  omega
+
+namespace EdfSoundLemmas
+open RTA.PruneCoreLemmas RTA.PruneFPLemmas RTA.PruneEDFLemmas FpSoundLemmas
+
+/-! ### reading the result of the analysis -/
+
+/-- what `Ok(R)` of the common core of the EDF analyses means -/
+theorem edfCore_extract (tua : RB) (D : ℕ) (others : List EdfTask) (rem : ℕ) (wb : Bool)
+    (limit R : ℕ) (hwf : tua.ArrWF) (hex : tua.Exact) (ho : EdfOthersOK others)
+    (hpos : 0 < tua.need 1)
+    (hstep : ∀ A, tua.need A < tua.need (A + 1) → tua.need A + rem < tua.need (A + 1))
+    (hR : edfCore tua D others rem wb limit = .ok R) :
+    ∃ L, 0 < L ∧ sumNeed (others.map (·.rb)) L + tua.need L ≤ L ∧
+      ∀ A, A < L → ∃ AF, (if wb then edfBlocking others D A else 0) + (tua.need (A + 1) - rem) +
+          edfHepWorkload others D A (max AF 1) ≤ AF ∧ AF - A + rem ≤ R := by
+  have hl : 1 ≤ limit := by
+    by_contra h0
+    have : limit = 0 := by omega
+    subst this
+    rw [edfCore_eq, search_limit_zero] at hR
+    cases hR
+  rw [edfCore_eq_naive tua D others rem wb limit hwf hex ho hl hpos hstep, naiveEdf_eq] at hR
+  rcases naiveSolve_cases (fun L => sumNeed (others.map (·.rb)) L + tua.need L) limit with
+    ⟨L, hL⟩ | hd
+  · rw [hL] at hR
+    simp only at hR
+    have hLs : sumNeed (others.map (·.rb)) (max L 1) + tua.need (max L 1) ≤ L :=
+      ((naiveSolve_ok_iff _ _ _).1 hL).2.1
+    have hLpos : 0 < L := by
+      by_contra h0
+      have : L = 0 := by omega
+      subst this
+      have e : max 0 1 = 1 := rfl
+      rw [e] at hLs
+      omega
+    have e : max L 1 = L := by omega
+    rw [e] at hLs
+    refine ⟨L, hLpos, hLs, ?_⟩
+    intro A hA
+    obtain ⟨v, hv, hvR⟩ := naiveMax_ok_inv _ R hR (edfPer tua D others rem wb limit A)
+      (List.mem_map.2 ⟨A, List.mem_range.2 hA, rfl⟩)
+    unfold edfPer at hv
+    rcases naiveSolve_cases (edfRhs tua D others rem wb A) limit with ⟨AF, h⟩ | h
+    · rw [h] at hv
+      injection hv with hv
+      have hs : edfRhs tua D others rem wb A (max AF 1) ≤ AF :=
+        ((naiveSolve_ok_iff _ _ _).1 h).2.1
+      unfold edfRhs at hs
+      exact ⟨AF, hs, by omega⟩
+    · rw [h] at hv
+      cases hv
+  · rw [hd] at hR
+    cases hR
+
+/-- with a failing parameter guard the analysis never returns `Ok` -/
+theorem edfCore_guard_ne_ok (tua : RB) (D : ℕ) (others : List EdfTask) (rem : ℕ) (wb : Bool)
+    (limit R : ℕ) : edfCore tua D others rem wb limit true ≠ .ok R := by
+  rw [edfCore_eq]
+  cases search .dedicated limit (fun L => sumNeed (others.map (·.rb)) L + tua.need L) with
+  | ok L => intro h; simp at h
+  | div o l => intro h; cases h
+  | panic => intro h; cases h
+
+/-! ### the hypotheses of the abstract busy-window theorem -/
+
+theorem getD_mem (others : List EdfTask) (m : ℕ) (hm : m < others.length) :
+    others.getD m default ∈ others := by
+  rw [← List.getElem_eq_getD (h := hm) default]
+  exact List.getElem_mem hm
+
+/-- the blocking hypothesis of `blocked_bound` / `reach_rt` -/
+theorem edf_Hb {s : Sys} {Dl : ℕ → ℕ} {i D : ℕ} {tua : RB} {others : List EdfTask} {ids : List ℕ}
+    (hS : EdfSetting s Dl i D tua others ids) (wb : Bool) (hnp : wb = false → ∀ l x, ¬ s.np l x)
+    (j : ℕ) (hji : s.task j = i) (t0 : ℕ) (ht0 : t0 ≤ s.arr j) :
+    ∀ l < s.n, ¬ hepEDF s Dl l j → s.arr l < t0 → ∀ x len, (∀ i < len, s.np l (x + i)) →
+      len ≤ (if wb then edfBlocking others D (s.arr j - t0) else 0) := by
+  intro l hl hn harr x len h
+  cases wb with
+  | false =>
+    simp only [Bool.false_eq_true, if_false]
+    by_contra hlen
+    exact hnp rfl l (x + 0) (h 0 (by omega))
+  | true =>
+    simp only [if_true]
+    unfold hepEDF at hn
+    rw [hji, hS.dl_tua] at hn
+    rcases hS.task_mem l hl with hi | ⟨m, hm, hlm⟩
+    · rw [hi, hS.dl_tua] at hn
+      omega
+    · rw [hlm, hS.dl_other m hm] at hn
+      have hm' : m < others.length := by rw [← hS.ids_len]; exact hm
+      have hseg := hS.seg m hm l hl hlm x len h
+      refine le_trans hseg ?_
+      unfold edfBlocking
+      apply le_maxList_of_mem
+      rw [List.mem_map]
+      refine ⟨others.getD m default, ?_, rfl⟩
+      rw [List.mem_filter]
+      refine ⟨getD_mem others m hm', ?_⟩
+      simp only [Bool.and_eq_true, decide_eq_true_eq]
+      refine ⟨by omega, ?_⟩
+      have h1 := hS.w_other m hm (s.arr l) 1
+      rw [workOf_eq] at h1
+      have h2 := cost_le_workP s
+        (fun k => s.task k = ids.getD m 0 ∧ s.arr l ≤ s.arr k ∧ s.arr k < s.arr l + 1) l hl
+        ⟨hlm, le_refl _, by omega⟩
+      have := hS.cost_pos l hl
+      exact lt_of_lt_of_le (by omega) (le_trans h2 h1)
+
+/-- `reach_rt` for EDF: `X` bounds the work of the other jobs of the task released in the
+busy window up to the release of `j`, plus `rt` -/
+theorem edf_reach {s : Sys} {Dl : ℕ → ℕ} {i D : ℕ} {tua : RB} {others : List EdfTask} {ids : List ℕ}
+    (hS : EdfSetting s Dl i D tua others ids) (wb : Bool) (hnp : wb = false → ∀ l x, ¬ s.np l x)
+    (j : ℕ) (hj : j < s.n) (hji : s.task j = i)
+    (t0 : ℕ) (hq : J.Quiet s (hepEDF s Dl) j t0) (ht0 : t0 ≤ s.arr j)
+    (hmax : ∀ t, t0 < t → t ≤ s.arr j → ¬ J.Quiet s (hepEDF s Dl) j t)
+    (rt AF X : ℕ) (hrt : rt ≤ s.cost j)
+    (hown : J.workP s (fun k => k ≠ j ∧ (s.task k = i ∧ t0 ≤ s.arr k ∧ s.arr k < s.arr j + 1))
+      + rt ≤ X)
+    (hAF : (if wb then edfBlocking others D (s.arr j - t0) else 0) + X +
+      edfHepWorkload others D (s.arr j - t0) AF ≤ AF) : rt ≤ svc s j (t0 + AF) := by
+  have hw : J.workP s (fun k => k ≠ j ∧ (hepEDF s Dl k j ∧ t0 ≤ s.arr k ∧ s.arr k < t0 + AF))
+      ≤ (X - rt) + edfHepWorkload others D (s.arr j - t0) AF := by
+    have h1 : J.workP s (fun k => k ≠ j ∧ (hepEDF s Dl k j ∧ t0 ≤ s.arr k ∧ s.arr k < t0 + AF))
+        ≤ J.workP s (fun k =>
+            (k ≠ j ∧ (s.task k = i ∧ t0 ≤ s.arr k ∧ s.arr k < s.arr j + 1)) ∨
+            (∃ m, m < ids.length ∧ (s.task k = ids.getD m 0 ∧ t0 ≤ s.arr k ∧ s.arr k < t0 +
+              (fun o : EdfTask => min AF ((s.arr j - t0 + 1 + D) - o.D)) (others.getD m default)))) := by
+      apply workP_mono
+      rintro k hk ⟨hkj, hh, ha, hb⟩
+      unfold hepEDF at hh
+      rw [hji, hS.dl_tua] at hh
+      rcases hS.task_mem k hk with hi | ⟨m, hm, hkm⟩
+      · left
+        rw [hi, hS.dl_tua] at hh
+        exact ⟨hkj, hi, ha, by omega⟩
+      · right
+        rw [hkm, hS.dl_other m hm] at hh
+        refine ⟨m, hm, hkm, ha, ?_⟩
+        show s.arr k < t0 + min AF ((s.arr j - t0 + 1 + D) - (others.getD m default).D)
+        omega
+    have h4 := workP_others_le hS t0
+      (fun o : EdfTask => min AF ((s.arr j - t0 + 1 + D) - o.D))
+    have h5 : sumList (others.map fun o => o.rb.need
+        ((fun o : EdfTask => min AF ((s.arr j - t0 + 1 + D) - o.D)) o))
+        = edfHepWorkload others D (s.arr j - t0) AF := rfl
+    rw [h5] at h4
+    exact le_trans h1 (le_trans (workP_or_le s _ _) (Nat.add_le_add (by omega) h4))
+  exact reach_rt hS.legal (hepEDF_trans s Dl) (hepEDF_refl s Dl) j hj t0 hq ht0 hmax rt _ _ AF hrt
+    (edf_Hb hS wb hnp j hji t0 ht0) hw (by omega)
+
+/-- the common part of the soundness proofs: `j` reaches service level `rt` at a time `t`
+with `t + rem ≤ arr j + R` -/
+theorem edf_sound_core {s : Sys} {Dl : ℕ → ℕ} {i D : ℕ} {tua : RB} {others : List EdfTask}
+    {ids : List ℕ} (hS : EdfSetting s Dl i D tua others ids) (hwf : tua.ArrWF) (hex : tua.Exact)
+    (ho : EdfOthersOK others) (wb : Bool) (hnp : wb = false → ∀ l x, ¬ s.np l x)
+    (rem limit R : ℕ)
+    (hstep : ∀ A, tua.need A < tua.need (A + 1) → tua.need A + rem < tua.need (A + 1))
+    (hR : edfCore tua D others rem wb limit = .ok R)
+    (j : ℕ) (hj : j < s.n) (hji : s.task j = i) (rt : ℕ) (hrt : rt ≤ s.cost j) (hrt0 : 0 < rt)
+    (hown : ∀ t0, t0 ≤ s.arr j →
+      J.workP s (fun k => k ≠ j ∧ (s.task k = i ∧ t0 ≤ s.arr k ∧ s.arr k < s.arr j + 1))
+        + rt + rem ≤ tua.need (s.arr j - t0 + 1)) :
+    ∃ t, rt ≤ svc s j t ∧ t + rem ≤ s.arr j + R := by
+  have hpos : 0 < tua.need 1 := by
+    have h1 := hS.w_tua (s.arr j) 1
+    rw [workOf_eq] at h1
+    have h2 := cost_le_workP s (fun k => s.task k = i ∧ s.arr j ≤ s.arr k ∧ s.arr k < s.arr j + 1)
+      j hj ⟨hji, le_refl _, by omega⟩
+    have := hS.cost_pos j hj
+    omega
+  obtain ⟨L, hLpos, hfix, hall⟩ :=
+    edfCore_extract tua D others rem wb limit R hwf hex ho hpos hstep hR
+  obtain ⟨t0, hq, ht0, hmax⟩ := exists_t0 s (hepEDF s Dl) j
+  have hA := edf_offset_lt_L s Dl i D tua others ids hS L hLpos hfix j hj t0 hq ht0 hmax
+  obtain ⟨AF, hAF, hAFR⟩ := hall (s.arr j - t0) hA
+  have ho' := hown t0 ht0
+  have hAF1 : 1 ≤ AF := by omega
+  have e : max AF 1 = AF := by omega
+  rw [e] at hAF
+  have hr := edf_reach hS wb hnp j hj hji t0 hq ht0 hmax rt AF
+    (tua.need (s.arr j - t0 + 1) - rem) hrt (by omega) hAF
+  exact ⟨t0 + AF, hr, by omega⟩
+
+end EdfSoundLemmas
 
 /-- C02 for the analyses without a run-to-completion remainder: fully preemptive EDF
 (`wb = false`, no non-preemptable states at all) and EDF with floating non-preemptive
@@ -68,7 +416,20 @@ theorem edf_sound_rem0 (s : Sys) (Dl : ℕ → ℕ) (i D : ℕ) (tua : RB) (othe
     (ho : EdfOthersOK others) (wb : Bool) (hnp : wb = false → ∀ l x, ¬ s.np l x)
     (limit R : ℕ) (hR : edfCore tua D others 0 wb limit = .ok R) :
     ∀ j, j < s.n → s.task j = i → MeetsBound s j R := by
-  sorry
+  intro j hj hji
+  have hl := hS.legal
+  obtain ⟨t, ht, htR⟩ := edf_sound_core hS hwf hex ho wb hnp 0 limit R (fun _ h => h) hR j hj hji
+    (s.cost j) (le_refl _) (hS.cost_pos j hj) (by
+      intro t0 ht0
+      have h1 := hS.w_tua t0 (s.arr j - t0 + 1)
+      rw [workOf_eq] at h1
+      have e : t0 + (s.arr j - t0 + 1) = s.arr j + 1 := by omega
+      rw [e] at h1
+      have h2 := workP_split s (fun k => s.task k = i ∧ t0 ≤ s.arr k ∧ s.arr k < s.arr j + 1)
+        j hj ⟨hji, ht0, by omega⟩
+      omega)
+  have := J.svc_le_cost hl j t
+  exact J.done_mono hl j (show t ≤ s.arr j + R by omega) (by omega)
 
 /-- C02 for the analyses with scalar WCET `C` and remainder `rem < C` (fully
 non-preemptive EDF: `rem = C - 1`; limited-preemptive EDF: `rem = last - 1`) -/
@@ -80,7 +441,36 @@ theorem edf_sound_scalar (s : Sys) (Dl : ℕ → ℕ) (i D : ℕ) (a : Arr) (C r
       ∀ x, max 1 (s.cost j - rem) ≤ x → x < s.cost j → s.np j x)
     (limit R : ℕ) (hR : edfCore (.rbf a (.scalar C)) D others rem true limit = .ok R) :
     ∀ j, j < s.n → s.task j = i → MeetsBound s j R := by
-  sorry
+  intro j hj hji
+  have hl := hS.legal
+  have hC : 1 ≤ C := by omega
+  have hwf' : (RB.rbf a (.scalar C)).ArrWF := by simp only [RB.ArrWF]; exact hwf
+  have hex' : (RB.rbf a (.scalar C)).Exact := by
+    simp only [RB.Exact]; exact ⟨hex, Cost.scalar_strictPos C hC⟩
+  have hcj := hS.cost_pos j hj
+  obtain ⟨hcC, hnp⟩ := hown j hj hji
+  obtain ⟨t, ht, htR⟩ := edf_sound_core hS hwf' hex' ho true (fun h => by cases h) rem limit R
+    (scalar_hstep a C rem hrem) hR
+    j hj hji (max 1 (s.cost j - rem)) (by omega) (by omega) (by
+      intro t0 ht0
+      have hneed : (RB.rbf a (.scalar C)).need (s.arr j - t0 + 1) = C * a.N (s.arr j - t0 + 1) := by
+        simp only [RB.need, Cost.ofJobs]
+      rw [hneed]
+      have h1 := hcnt t0 (s.arr j - t0 + 1)
+      rw [cntOf_eq] at h1
+      have e : t0 + (s.arr j - t0 + 1) = s.arr j + 1 := by omega
+      rw [e] at h1
+      have h2 := cntP_split s (fun k => s.task k = i ∧ t0 ≤ s.arr k ∧ s.arr k < s.arr j + 1)
+        j hj ⟨hji, ht0, by omega⟩
+      have h3 := workP_le_mul_cntP s
+        (fun k => k ≠ j ∧ (s.task k = i ∧ t0 ≤ s.arr k ∧ s.arr k < s.arr j + 1)) C
+        (fun k hk hp => (hown k hk hp.2.1).1)
+      have h4 : C * (cntP s (fun k => k ≠ j ∧ (s.task k = i ∧ t0 ≤ s.arr k ∧ s.arr k < s.arr j + 1)) + 1)
+          ≤ C * a.N (s.arr j - t0 + 1) := Nat.mul_le_mul_left C (by omega)
+      rw [Nat.mul_succ] at h4
+      omega)
+  have hrun := run_to_completion hl j (max 1 (s.cost j - rem)) hnp (by omega) t ht
+  exact J.done_mono hl j (show t + (s.cost j - max 1 (s.cost j - rem)) ≤ s.arr j + R by omega) hrun
 
 /-- the four analyses of the crate as instances -/
 theorem edf_preemptive_sound (s : Sys) (Dl : ℕ → ℕ) (i D : ℕ) (tua : RB) (others : List EdfTask) (ids : List ℕ)
@@ -88,14 +478,16 @@ theorem edf_preemptive_sound (s : Sys) (Dl : ℕ → ℕ) (i D : ℕ) (tua : RB)
     (ho : EdfOthersOK others) (hnp : ∀ l x, ¬ s.np l x)
     (limit R : ℕ) (hR : edfPreemptive tua D others limit = .ok R) :
     ∀ j, j < s.n → s.task j = i → MeetsBound s j R := by
-  sorry
+  unfold edfPreemptive at hR
+  exact edf_sound_rem0 s Dl i D tua others ids hS hwf hex ho false (fun _ => hnp) limit R hR
 
 theorem edf_floating_sound (s : Sys) (Dl : ℕ → ℕ) (i D : ℕ) (tua : RB) (others : List EdfTask) (ids : List ℕ)
     (hS : EdfSetting s Dl i D tua others ids) (hwf : tua.ArrWF) (hex : tua.Exact)
     (ho : EdfOthersOK others)
     (limit R : ℕ) (hR : edfFloating tua D others limit = .ok R) :
     ∀ j, j < s.n → s.task j = i → MeetsBound s j R := by
-  sorry
+  unfold edfFloating at hR
+  exact edf_sound_rem0 s Dl i D tua others ids hS hwf hex ho true (fun h => by cases h) limit R hR
 
 theorem edf_nonpreemptive_sound (s : Sys) (Dl : ℕ → ℕ) (i D : ℕ) (a : Arr) (C : ℕ) (others : List EdfTask)
     (ids : List ℕ) (hS : EdfSetting s Dl i D (.rbf a (.scalar C)) others ids) (hwf : a.WF) (hex : a.Exact)
@@ -104,7 +496,15 @@ theorem edf_nonpreemptive_sound (s : Sys) (Dl : ℕ → ℕ) (i D : ℕ) (a : Ar
     (hown : ∀ j, j < s.n → s.task j = i → s.cost j ≤ C ∧ ∀ x, 1 ≤ x → x < s.cost j → s.np j x)
     (limit R : ℕ) (hR : edfNonpreemptive a C D others limit = .ok R) :
     ∀ j, j < s.n → s.task j = i → MeetsBound s j R := by
-  sorry
+  unfold edfNonpreemptive at hR
+  by_cases hC : C < 1
+  · rw [decide_eq_true hC] at hR
+    exact absurd hR (edfCore_guard_ne_ok _ _ _ _ _ _ _)
+  · rw [decide_eq_false hC] at hR
+    refine edf_sound_scalar s Dl i D a C (C - 1) others ids hS hwf hex ho (by omega) hcnt ?_ limit R hR
+    intro j hj hji
+    obtain ⟨h1, h2⟩ := hown j hj hji
+    exact ⟨h1, fun x hx hx' => h2 x (by omega) hx'⟩
 
 theorem edf_limited_sound (s : Sys) (Dl : ℕ → ℕ) (i D : ℕ) (a : Arr) (C last : ℕ) (others : List EdfTask)
     (ids : List ℕ) (hS : EdfSetting s Dl i D (.rbf a (.scalar C)) others ids) (hwf : a.WF) (hex : a.Exact)
@@ -114,6 +514,10 @@ theorem edf_limited_sound (s : Sys) (Dl : ℕ → ℕ) (i D : ℕ) (a : Arr) (C 
       ∀ x, max 1 (s.cost j - (last - 1)) ≤ x → x < s.cost j → s.np j x)
     (limit R : ℕ) (hR : edfLimited a C D last others limit = .ok R) :
     ∀ j, j < s.n → s.task j = i → MeetsBound s j R := by
-  sorry
+  unfold edfLimited at hR
+  rw [decide_eq_false (by omega : ¬ (last < 1 ∨ C < last - 1))] at hR
+  have e : C - (C - (last - 1)) = last - 1 := by omega
+  rw [e] at hR
+  exact edf_sound_scalar s Dl i D a C (last - 1) others ids hS hwf hex ho (by omega) hcnt hown limit R hR
 
 end RTA.Sched
